@@ -13,11 +13,11 @@ import (
 )
 
 func ruleText(thorough bool) string {
-	reduced := "byte substitutions and the remaining truncations run Text, ToMarkdown, PageCount (PDF; Chunks is a prefix of ToMarkdown there) or Text (other formats: every entry re-parses the whole container first) + the matching raw parsers; doubles: all pairs of structural faults (classes 2-6) within the same PDF object (inside a content stream or CMap: the same line, i.e. one operator with its operands; inside an xref table: the same entry line) / ZIP record / XML tag, run through Text, PageCount (PDF) or Text (other formats) + the matching raw parsers; "
+	reduced := "byte-level classes (every-offset truncation, byte substitution) run on the plain bases only, in this tier not on ODT, PPTX, EPUB2 (same archive/zip + encoding/xml + x/net/html layers as DOCX, XLSX, EPUB3, HTML, which get them), through Text, ToMarkdown, PageCount (PDF; Chunks is a prefix of ToMarkdown there) or Text (other formats: every entry re-parses the whole container first) + the matching raw parsers; doubles: all pairs of structural faults (classes 2-6) within the same PDF object (inside a content stream or CMap: the same line, i.e. one operator with its operands; inside an xref table: the same entry line) / ZIP record, and within the same XML/HTML tag all pairs with at least one numeric fault (two numeric attributes of one element, number + delimiter), run through Text, PageCount (PDF) or Text (other formats; two numeric attributes of one element: Text, ToMarkdown, Chunks) + the matching raw parsers; "
 	if thorough {
 		reduced = "byte substitutions and the remaining truncations run Text, ToMarkdown, Chunks, PageCount + the matching raw parsers; doubles: all pairs of structural faults (classes 2-6) within the same PDF object (inside a content stream or CMap: the same line, i.e. one operator with its operands; inside an xref table: the same entry line) / ZIP record / XML tag, then all remaining pairs of the same layer until the internal time budget is used up, run through Text, Chunks, PageCount + the matching raw parsers; "
 	}
-	return "bases: 9 generated PDFs (classic xref with a marked-content dictionary and a TJ array in the content; uncompressed xref stream+object stream; xref stream+object streams+Flate; Type0/ToUnicode; indirect /Length+indirect Resources; two revisions+depth-2 page tree; Flate+PNG predictor+xref stream; nested Form XObjects; embedded TrueType program), DOCX, ODT, XLSX, PPTX, EPUB2, EPUB3, HTML (0.6-7 KB each). " +
+	return "field-inventory bases (structural classes only; the inventory field -> base is in the evidence note field_inventory): pdf-rich, pdf-rev3, pdf-rev3x, docx-rich, odt-rich, xlsx-rich, pptx-rich, epub-rich, html-rich. Numeric class also tries 1048576; class 8 = nesting amplifier (every PDF '[' x4096, '<<' x2048, every HTML/XHTML start tag x3000; singles only). Plain bases: 9 generated PDFs (classic xref with a marked-content dictionary and a TJ array in the content; uncompressed xref stream+object stream; xref stream+object streams+Flate; Type0/ToUnicode; indirect /Length+indirect Resources; two revisions+depth-2 page tree; Flate+PNG predictor+xref stream; nested Form XObjects; embedded TrueType program), DOCX, ODT, XLSX, PPTX, EPUB2, EPUB3, HTML (0.6-7 KB each). " +
 		"Fault catalogue, applied at EVERY site (no sampling): (1) truncation at every byte offset of the file and at every token boundary of every ZIP member / decoded PDF stream (container rebuilt consistently); (2) every maximal digit run -> 0, -1, 2147483648, 9223372036854775807, every binary ZIP header field -> 0, all-ones, high-bit, max-positive; " +
 		"(3) PDF: every indirect reference retargeted to every object number, every startxref, /Prev and xref-entry offset retargeted to every section and object offset; (4) every PDF object dropped / duplicated (rebuilt through pdfw with a consistent xref, and raw span removal / duplication), every ZIP member dropped / duplicated; " +
 		"(5) every delimiter deleted / doubled / swapped for its partner (PDF ( ) [ ] < > << >>, XML/HTML < > \" / = & ;); (6) every compressed stream (PDF Flate streams, deflated ZIP members: raw bytes and inside a consistent container) first/middle/last byte flipped, truncated by 1, emptied; " +
@@ -81,7 +81,11 @@ func (r *runner) pairs(bi *baseInfo, all []edit, cross bool) {
 						continue
 					}
 					eds := []edit{x, y}
-					r.exec(bi, eds, r.entriesFor(bi, eds, "pair"))
+					level := "pair"
+					if !r.e.Thorough() && bi.b.kind != "pdf" && isNum(x) && isNum(y) {
+						level = "pairnum"
+					}
+					r.exec(bi, eds, r.entriesFor(bi, eds, level))
 				}
 			}
 		}
